@@ -441,6 +441,13 @@ static void h_op(void)
     if (!sqfp->data.ascii.ssi) { h_out("bad-op"); return; }
     if (!tool_go) { char *argv[3] = { "esl-sfetch", "f", "k" }; tool_go = esl_getopts_Create(options); esl_opt_ProcessCmdline(tool_go, 3, argv); }
     k = (char *) h_unhex(h_arg("key"), &n);
+    { /* the tool ends the process on failure: find out first, with the same library call, whether it would */
+      int64_t gs = h_argi("s", 1), ge = h_argi("e", 0); ESL_SQ *t = esl_sq_Create();
+      status = (ge != 0 && gs > ge) ? esl_sqio_FetchSubseq(sqfp, k, ge, gs, t) : esl_sqio_FetchSubseq(sqfp, k, gs, ge, t);
+      if (status == eslOK && ge != 0 && gs > ge) status = esl_sq_ReverseComplement(t);
+      esl_sq_Destroy(t);
+      if (status != eslOK) { h_out("tool-fatal"); dead = 1; free(k); return; }
+    }
     fp = tmpfile();
     onefetch_subseq(tool_go, fp, sqfp, NULL, k, h_argi("s", 1), h_argi("e", 0));   /* esl_fatal() (process exit) on any error */
     op_file_hex(fp, "toolsub"); fclose(fp); free(k);
